@@ -475,9 +475,9 @@ func TestThorough(t *testing.T) {
 	if shard, _ := evid.Shard(); shard == 0 {
 		fix.Pinned(t, prop, replay)
 	}
-	fix.Check(t, "clobber", 3000, func(rt *rapid.T) { runClobber(rt, drawClobber(rt)) })
-	fix.Check(t, "read", 3000, func(rt *rapid.T) { runRead(rt, drawRead(rt)) })
-	fix.Check(t, "race", 100, func(rt *rapid.T) { runRace(rt, drawRace(rt)) })
+	fix.Check(t, "clobber", 10000, func(rt *rapid.T) { runClobber(rt, drawClobber(rt)) })
+	fix.Check(t, "read", 10000, func(rt *rapid.T) { runRead(rt, drawRead(rt)) })
+	fix.Check(t, "race", 300, func(rt *rapid.T) { runRace(rt, drawRace(rt)) })
 }
 
 func TestReplay(t *testing.T) {
